@@ -514,7 +514,9 @@ impl SimDevice for SimDisk {
                     apply(&mut s, data);
                     Err(eio())
                 }
-                Some(FaultKind::WriteShort) if cut_at_byte => {
+                // a third of the short writes stop at an arbitrary byte (decided from the call number,
+                // not from the tape, so that recorded fault tapes keep their meaning)
+                Some(FaultKind::WriteShort) if cut_at_byte || (data.len() > 1 && crate::tape::mix(call, data.len() as u64) % 3 == 0) => {
                     // a write call that returns early can stop at any byte, not only between sectors
                     let keep = sim.fault_draw(|t| if t.chance(1, 2) { 1 + t.below(120) as usize } else { 1 + t.below(data.len() as u32 - 1) as usize });
                     apply(&mut s, &data[..keep.min(data.len() - 1)]);
